@@ -2,7 +2,7 @@
    tree's text is, line by line, as a well-formed layout again -- so, by ParseImageP, the strict
    reader accepts the printed result and re-reads the reported content; with the layout facts
    (indentation, one blank line between paragraphs) read off that layout. *)
-From V.model Require Import Base Deb822Lex Deb822Parse Grammar XGrammar Deb822Edit Deb822Wrap WrapSpec.
+From V.model Require Import Base Deb822Lex Deb822Parse Grammar XGrammar Deb822Edit Deb822Wrap WrapSpec XWrapSpec.
 From V.proofs Require Import BaseP Deb822LexP Deb822ParseP Deb822EditP Deb822WrapP WrapTokP ParseTokP ParseImageP.
 Set Default Timeout 60.
 
@@ -21,8 +21,6 @@ Definition head_pay (f : xfield) : xpay := match x_first f with [] => PNone | s 
 Definition reindent (n : N) (c : xcont) : xcont := mk_xcont (xc_nl c) (spaces n) (xc_pay c).
 Definition pay_hash (p : xpay) : bool := match p with PVal s => starts_with_hash s | _ => false end.
 Definition is_pcom (p : xpay) : bool := match p with PCom _ => true | _ => false end.
-Definition xn (ind : indentation) (f : xfield) : N :=
-  match ind with Spaces i => i | FieldNameLength => utf8_size (x_name f) end.
 
 Definition x_ws_field (n : N) (iel : bool) (mll : option N) (f : xfield) : xfield :=
   let cs := strip_conts (x_cont f) in
@@ -477,9 +475,6 @@ Qed.
 
 (* every continuation line of the reformatted field is indented by the requested width, the field
    ends with LF, and nothing stands between the name and the colon *)
-Definition xfield_canon (n : N) (f : xfield) : bool :=
-  forallb (fun c => str_eqb (xc_ind c) (spaces n)) (x_cont f) && is_nil (x_w0 f) &&
-  match x_nl f with Some c => (c =? 10)%N | None => false end.
 Theorem x_ws_field_canon n iel mll f : xfield_canon n (x_ws_field n iel mll f) = true.
 Proof.
   assert (Hm : forall rest, forallb (fun c => str_eqb (xc_ind c) (spaces n)) (map (reindent n) rest) = true).
@@ -667,8 +662,6 @@ Qed.
 (* ---- the reformatted paragraph ---- *)
 Definition out_items (ind : indentation) (iel : bool) (mll : option N) (AL : list (list xcom * xfield)) : list xitem :=
   flat_map (fun g => map xcom_item (fst g) ++ [XField (x_ws_field (xn ind (snd g)) iel mll (snd g))]) AL.
-Definition items_canon (ind : indentation) (I : list xitem) : bool :=
-  forallb (fun it => match it with XField f => xfield_canon (xn ind f) f | XComment _ _ => true end) I.
 
 Lemma den_out_items ind iel mll AL : ind_pos ind -> Forall good_group AL ->
   den (concat (map (fun g => fst g ++ [snd g]) (map (fun g => (fst g, e_out ind iel mll (snd g))) (map gtree AL)))) (out_items ind iel mll AL) /\
@@ -688,16 +681,24 @@ Proof.
     rewrite En, x_ws_field_canon, andb_true_r. rewrite forallb_forall. intros x Hx. apply in_map_iff in Hx. destruct Hx as (c & <- & _). reflexivity.
 Qed.
 
-Theorem pp_out_xpara ind iel mll esort f its more : ind_pos ind -> xwf_items (XField f :: its) more = true ->
-  exists lead f1 I',
-    den (children (pp_out ind iel mll esort (xblock_tree (XPara f its)))) (map xcom_item lead ++ XField f1 :: I') /\
-    forallb (comw true) lead = true /\ xwf_field f1 true = true /\ xwf_items I' true = true /\
-    xfield_canon (xn ind f1) f1 = true /\ items_canon ind I' = true.
+Lemma term_abs_idem tr : term_abs (term_abs tr) = term_abs tr.
 Proof.
-  intros Hi Hwf.
+  unfold term_abs at 2. destruct (rev tr) as [|[c [x|]] r] eqn:Er.
+  - assert (tr = []) by (rewrite <- (rev_involutive tr), Er; reflexivity). subst tr. reflexivity.
+  - unfold term_abs. rewrite Er. reflexivity.
+  - unfold term_abs. rewrite Er, rev_app_distr. reflexivity.
+Qed.
+
+(* the reformatted paragraph, explicitly *)
+Lemma pp_out_form ind iel mll esort f its more : xwf_items (XField f :: its) more = true ->
+  exists AL tr, Forall good_group AL /\ AL <> [] /\ xwf_items (map xcom_item tr) more = true /\
+    pp_out ind iel mll esort (xblock_tree (XPara f its)) =
+    Node PARAGRAPH (p_ungroup (map (fun g => (fst g, e_out ind iel mll (snd g))) (map gtree AL)) (flat_map celems (term_abs tr))).
+Proof.
+  intros Hwf.
   destruct (p_groups_abs (XField f :: its) more [] Hwf eq_refl) as (AG & tr & Eg & HG & Htr & Hne).
   cbn [flat_map xitem_elems app] in Eg.
-  unfold pp_out. cbn [xblock_tree children]. rewrite ensure_nl_node. cbn [children]. unfold p_out. rewrite Eg. cbn [fst snd].
+  unfold pp_out. cbn [xblock_tree children]. rewrite ensure_nl_node. unfold p_out. rewrite Eg. cbn [fst snd].
   set (L := sort_opt (option_map on_snd esort) (map gtree AG)).
   destruct (in_map_list gtree good_group L) as (AL & EL & HAL).
   { intros y Hy. apply sort_opt_In in Hy. apply in_map_iff in Hy. destruct Hy as (a & <- & Ha). exists a. split; [reflexivity|].
@@ -705,13 +706,30 @@ Proof.
   assert (HALne : AL <> []).
   { intros ->. assert (Hl : length L = length (map gtree AG)) by (apply Permutation.Permutation_length, sort_opt_perm).
     rewrite EL, map_length in Hl. cbn in Hl. destruct AG; [congruence|discriminate]. }
-  rewrite EL.
-  rewrite enl_p_ungroup2; [|intros g Hg|apply flat_celems_loose].
+  exists AL, tr. split; [exact HAL|]. split; [exact HALne|]. split; [exact Htr|].
+  rewrite EL. rewrite enl_p_ungroup2; [|intros g Hg|apply flat_celems_loose].
   2:{ apply in_map_iff in Hg. destruct Hg as (g0 & <- & _). cbn [snd]. eexists. split; [unfold e_out, entry_out; reflexivity|apply ensure_nl_e_out]. }
-  rewrite term_tr_celems. unfold p_ungroup.
+  rewrite term_tr_celems. reflexivity.
+Qed.
+
+Theorem pp_out_xpara ind iel mll esort f its more : ind_pos ind -> xwf_items (XField f :: its) more = true ->
+  exists lead f1 I',
+    den (children (pp_out ind iel mll esort (xblock_tree (XPara f its)))) (map xcom_item lead ++ XField f1 :: I') /\
+    forallb (comw true) lead = true /\ xwf_field f1 true = true /\ xwf_items I' true = true /\
+    xfield_canon (xn ind f1) f1 = true /\ items_canon ind I' = true /\
+    (exists cs, pp_out ind iel mll esort (xblock_tree (XPara f its)) = Node PARAGRAPH cs) /\
+    ensure_nl (pp_out ind iel mll esort (xblock_tree (XPara f its))) = pp_out ind iel mll esort (xblock_tree (XPara f its)).
+Proof.
+  intros Hi Hwf. destruct (pp_out_form ind iel mll esort f its more Hwf) as (AL & tr & HAL & HALne & Htr & Eform).
+  rewrite Eform. cbn [children]. unfold p_ungroup at 1.
   destruct (den_out_items ind iel mll AL Hi HAL) as (D & W & C).
   pose proof (den_app _ _ _ _ D (den_comments (term_abs tr))) as Dall.
   pose proof (term_abs_wf tr more Htr) as Wtr.
+  assert (Eenl : ensure_nl (Node PARAGRAPH (p_ungroup (map (fun g => (fst g, e_out ind iel mll (snd g))) (map gtree AL)) (flat_map celems (term_abs tr)))) =
+                 Node PARAGRAPH (p_ungroup (map (fun g => (fst g, e_out ind iel mll (snd g))) (map gtree AL)) (flat_map celems (term_abs tr)))).
+  { rewrite ensure_nl_node. f_equal. rewrite enl_p_ungroup2; [|intros g Hg|apply flat_celems_loose].
+    2:{ apply in_map_iff in Hg. destruct Hg as (g0 & <- & _). cbn [snd]. eexists. split; [unfold e_out, entry_out; reflexivity|apply ensure_nl_e_out]. }
+    rewrite term_tr_celems, term_abs_idem. reflexivity. }
   destruct AL as [|g1 AL']; [congruence|]. cbn [out_items flat_map] in *. fold (out_items ind iel mll AL') in *.
   rewrite <- !app_assoc in Dall. cbn [app] in Dall.
   exists (fst g1), (x_ws_field (xn ind (snd g1)) iel mll (snd g1)), (out_items ind iel mll AL' ++ map xcom_item (term_abs tr)).
@@ -726,6 +744,332 @@ Proof.
   split; [exact Hpre|]. split; [exact W2|]. split.
   - rewrite xwf_items_true, forallb_app, W3. cbn [andb]. rewrite forallb_forall in *. intros x Hx. apply in_map_iff in Hx.
     destruct Hx as (c & <- & Hc). exact (Wtr c Hc).
-  - split; [exact C2|]. unfold items_canon. rewrite forallb_app, C3. cbn [andb]. rewrite forallb_forall. intros x Hx.
+  - split; [exact C2|]. split; [|split; [eexists; reflexivity|exact Eenl]]. unfold items_canon. rewrite forallb_app, C3. cbn [andb]. rewrite forallb_forall. intros x Hx.
     apply in_map_iff in Hx. destruct Hx as (c & <- & _). reflexivity.
+Qed.
+
+(* ================================================================ the document *)
+Definition cline_tree (c : xcom) : tree := Node EMPTY_LINE (celems c).
+Definition xbcom (c : xcom) : xblock := XBComment (fst c) (snd c).
+Notation xpar := (xfield * list xitem)%type.
+Definition ptree (p : xpar) : tree := xblock_tree (XPara (fst p) (snd p)).
+Definition dgtree (g : list xcom * xpar) : list tree * tree := (map cline_tree (fst g), ptree (snd g)).
+Definition good_dgroup (g : list xcom * xpar) : Prop :=
+  forallb (comw true) (fst g) = true /\ exists more, xwf_items (XField (fst (snd g)) :: snd (snd g)) more = true.
+
+Lemma cline_tree_cline c : cline (cline_tree c) = true.
+Proof. destruct c as [c [nl|]]; reflexivity. Qed.
+Lemma map_cline_snoc cur c : map cline_tree cur ++ [cline_tree c] = map cline_tree (cur ++ [c]).
+Proof. rewrite map_app. reflexivity. Qed.
+
+Lemma d_groups_abs d : forall cur, xwf_doc d = true -> forallb (comw true) cur = true ->
+  exists AG tr, d_groups (map xblock_tree d) (map cline_tree cur) = (map dgtree AG, map cline_tree tr) /\
+    Forall good_dgroup AG /\ xwf_items (map xcom_item tr) false = true.
+Proof.
+  induction d as [|b r IH]; intros cur Hwf Hcur.
+  - exists [], cur. cbn [map d_groups]. repeat split; [constructor|apply comw_items, Hcur].
+  - cbn [xwf_doc] in Hwf. apply andb_true_iff in Hwf. destruct Hwf as [Hb Hr]. destruct b as [nl|c nl|f its]; cbn [map xblock_tree].
+    + cbn [d_groups is_para_node]. change (comment_line (Node EMPTY_LINE [Tok NEWLINE [nl]])) with false. cbv iota. apply IH; assumption.
+    + change (Node EMPTY_LINE (telems (xcomment_toks c nl))) with (cline_tree (c, nl)).
+      cbn [d_groups]. change (is_para_node (cline_tree (c, nl))) with false. cbv iota.
+      assert (Ecl : comment_line (cline_tree (c, nl)) = true) by (destruct nl; reflexivity). rewrite Ecl, map_cline_snoc.
+      destruct r as [|b2 r2].
+      * exists [], (cur ++ [(c, nl)]). cbn [map d_groups]. split; [reflexivity|]. split; [constructor|].
+        rewrite map_app, xwf_items_app. cbn [map xcom_item fst snd xwf_items]. rewrite andb_true_r, Hb, andb_true_r. apply comw_items, Hcur.
+      * apply IH; [exact Hr|]. rewrite forallb_app, Hcur. unfold comw. cbn [forallb fst snd]. rewrite Hb. reflexivity.
+    + cbn [d_groups]. change (is_para_node (Node PARAGRAPH (xfield_tree f :: flat_map xitem_elems its))) with true. cbv iota.
+      destruct (IH [] Hr eq_refl) as (AG & tr & E & HG & Htr). cbn [map] in E. rewrite E.
+      exists ((cur, (f, its)) :: AG), tr. cbn [map dgtree fst snd ptree]. split; [reflexivity|]. split; [|exact Htr].
+      constructor; [|exact HG]. split; [exact Hcur|]. cbn [fst snd].
+      exists (match r with [] => false | _ => true end). apply andb_true_iff in Hb. destruct Hb as [Hb _]. cbn [xwf_items]. exact Hb.
+Qed.
+
+(* ---- a list of root children and the blocks it prints and reports ---- *)
+Definition dden (X : list tree) (D : xdoc) : Prop :=
+  texts X = tstr (xdoc_toks D) /\ doc_items (Node ROOT X) = xcontent D.
+
+Lemma doc_items_app a b : doc_items (Node ROOT (a ++ b)) = doc_items (Node ROOT a) ++ doc_items (Node ROOT b).
+Proof. rewrite !doc_items_unfold, filter_app, map_app. reflexivity. Qed.
+Lemma dden_nil : dden [] [].
+Proof. split; reflexivity. Qed.
+Lemma dden_app X1 D1 X2 D2 : dden X1 D1 -> dden X2 D2 -> dden (X1 ++ X2) (D1 ++ D2).
+Proof.
+  intros [A1 B1] [A2 B2]. split.
+  - rewrite texts_app, xdoc_toks_app, tstr_app, A1, A2. reflexivity.
+  - rewrite doc_items_app, B1, B2. unfold xcontent. rewrite flat_map_app. reflexivity.
+Qed.
+
+Lemma xbcom_toks l : flat_map xblock_toks (map xbcom l) = flat_map xitem_toks (map xcom_item l).
+Proof. induction l as [|c r IH]; [reflexivity|]. cbn [map flat_map xbcom xcom_item xblock_toks xitem_toks]. rewrite IH. reflexivity. Qed.
+Lemma xbcom_content l : flat_map xblock_content (map xbcom l) = [].
+Proof. induction l as [|c r IH]; [reflexivity|]. cbn [map flat_map xbcom xblock_content app]. exact IH. Qed.
+Lemma xcom_pairs l : flat_map xitem_pairs (map xcom_item l) = [].
+Proof. induction l as [|c r IH]; [reflexivity|]. cbn [map flat_map xcom_item xitem_pairs app]. exact IH. Qed.
+
+Lemma texts_clines cs : texts (map cline_tree cs) = tstr (flat_map xitem_toks (map xcom_item cs)).
+Proof.
+  rewrite <- (proj1 (den_comments cs)). induction cs as [|c r IH]; [reflexivity|]. cbn [map flat_map]. rewrite texts_cons, texts_app, IH.
+  unfold cline_tree. rewrite text_node. reflexivity.
+Qed.
+Lemma clines_no_para cs : filter is_pnode (map cline_tree cs) = [].
+Proof. induction cs as [|c r IH]; [reflexivity|]. cbn [map filter]. exact IH. Qed.
+
+Lemma dden_clines cs : dden (map cline_tree cs) (map xbcom cs).
+Proof.
+  split.
+  - rewrite texts_clines. unfold xdoc_toks. rewrite xbcom_toks. reflexivity.
+  - rewrite doc_items_unfold, clines_no_para. unfold xcontent. rewrite xbcom_content. reflexivity.
+Qed.
+Lemma dden_blank : dden [blank_line] [XBlank LF].
+Proof. split; reflexivity. Qed.
+
+(* the reformatted paragraph with the comment lines that follow it at the end of the document: in
+   the layout those belong to the paragraph, and the comment lines that lead it do not *)
+Lemma dden_para P cs lead f1 I' tr : P = Node PARAGRAPH cs -> den cs (map xcom_item lead ++ XField f1 :: I') ->
+  dden (P :: map cline_tree tr) (map xbcom lead ++ [XPara f1 (I' ++ map xcom_item tr)]).
+Proof.
+  intros -> [A B]. split.
+  - rewrite texts_cons, text_node, A, texts_clines. unfold xdoc_toks. rewrite !flat_map_app, xbcom_toks. cbn [flat_map xblock_toks xitem_toks].
+    rewrite app_nil_r, !tstr_app, flat_map_app, tstr_app, <- !app_assoc. reflexivity.
+  - rewrite doc_items_unfold. cbn [filter]. change (is_pnode (Node PARAGRAPH cs)) with true. cbv iota. rewrite clines_no_para. cbn [map].
+    change (items (Node PARAGRAPH cs)) with (pitems cs). rewrite B. unfold xcontent. rewrite (flat_map_app xblock_content), xbcom_content.
+    cbn [flat_map xblock_content app]. rewrite (flat_map_app xitem_pairs), xcom_pairs. cbn [flat_map xitem_pairs app].
+    rewrite (flat_map_app xitem_pairs I'), xcom_pairs, app_nil_r. reflexivity.
+Qed.
+
+(* ---- the reformatted document, as a layout ---- *)
+Notation xres := (list xcom * xfield * list xitem)%type.      (* leading comment lines, first field, the other items *)
+Definition zpre (z : (list xcom * xpar) * xres) : list xcom := fst (fst z).
+Fixpoint build (first : bool) (ZL : list ((list xcom * xpar) * xres)) (tr : list xcom) : xdoc :=
+  match ZL with
+  | [] => if first then map xbcom tr else []
+  | z :: r =>
+    let '(lead, f, its) := snd z in
+    (if first then [] else [XBlank LF]) ++ map xbcom (zpre z) ++ map xbcom lead ++
+    match r with [] => [XPara f (its ++ map xcom_item tr)] | _ => XPara f its :: build false r tr end
+  end.
+
+Definition para_res (ind : indentation) (iel : bool) (mll : option N) (esort : option (tree -> tree -> comparison))
+  (g : list xcom * xpar) (t : xres) : Prop :=
+  let P := pp_out ind iel mll esort (ptree (snd g)) in
+  let '(lead, f1, I') := t in
+  den (children P) (map xcom_item lead ++ XField f1 :: I') /\
+  forallb (comw true) (fst g) = true /\ forallb (comw true) lead = true /\ xwf_field f1 true = true /\ xwf_items I' true = true /\
+  xfield_canon (xn ind f1) f1 = true /\ items_canon ind I' = true /\
+  (exists cs, P = Node PARAGRAPH cs) /\ ensure_nl P = P.
+
+Lemma para_res_exists ind iel mll esort g : ind_pos ind -> good_dgroup g -> exists t, para_res ind iel mll esort g t.
+Proof.
+  intros Hi [Hpre (more & Hwf)]. destruct g as [pre [f its]]. cbn [fst snd] in *.
+  destruct (pp_out_xpara ind iel mll esort f its more Hi Hwf) as (lead & f1 & I' & A & B & C & D & E & F & G & H).
+  exists (lead, f1, I'). unfold para_res, ptree. cbn [fst snd]. exact (conj A (conj Hpre (conj B (conj C (conj D (conj E (conj F (conj G H)))))))).
+Qed.
+
+Lemma forall_exists_list {A B} (Q : A -> B -> Prop) (l : list A) : Forall (fun a => exists b, Q a b) l ->
+  exists ZL : list (A * B), map fst ZL = l /\ Forall (fun z => Q (fst z) (snd z)) ZL.
+Proof.
+  induction 1 as [|a r (b & Hb) Hr (ZL & E & HZ)]; [exists []; split; [reflexivity|constructor]|].
+  exists ((a, b) :: ZL). split; [cbn; rewrite E; reflexivity|constructor; assumption].
+Qed.
+
+Definition emitted ind iel mll esort (ZL : list ((list xcom * xpar) * xres)) : list (list tree * tree) :=
+  map (fun g => (fst g, pp_out ind iel mll esort (snd g))) (map dgtree (map fst ZL)).
+
+Lemma dden_emit ind iel mll esort tr ZL : Forall (fun z => para_res ind iel mll esort (fst z) (snd z)) ZL -> ZL <> [] ->
+  forall first, dden (d_emit first (emitted ind iel mll esort ZL) ++ map cline_tree tr) (build first ZL tr).
+Proof.
+  induction 1 as [|z r Hz Hr IH]; intros Hne first; [congruence|].
+  destruct z as [[pre p] [[lead f1] I']]. unfold para_res in Hz. cbn [fst snd] in Hz.
+  destruct Hz as (Hden & _ & _ & _ & _ & _ & _ & (cs & EP) & _). rewrite EP in Hden. cbn [children] in Hden.
+  unfold emitted in *. cbn [map fst snd dgtree d_emit build zpre].
+  assert (Hb : dden (if first then [] else [blank_line]) (if first then [] else [XBlank LF])) by (destruct first; [apply dden_nil|apply dden_blank]).
+  rewrite <- !app_assoc. apply dden_app; [exact Hb|]. apply dden_app; [apply dden_clines|].
+  destruct r as [|z2 r2].
+  - cbn [map d_emit app]. apply (dden_para _ cs lead f1 I' tr EP Hden).
+  - replace (map xbcom lead ++ XPara f1 I' :: build false (z2 :: r2) tr)
+      with ((map xbcom lead ++ [XPara f1 (I' ++ map xcom_item [])]) ++ build false (z2 :: r2) tr)
+      by (cbn [map]; rewrite app_nil_r, <- app_assoc; reflexivity).
+    apply (dden_app [pp_out ind iel mll esort (ptree p)] (map xbcom lead ++ [XPara f1 (I' ++ map xcom_item [])]) _ (build false (z2 :: r2) tr)).
+    + apply (dden_para _ cs lead f1 I' [] EP Hden).
+    + apply IH. discriminate.
+Qed.
+
+(* ---- terminating the result ---- *)
+Lemma enl_celems c : ensure_nl_list (celems c) = celems (fst c, Some (match snd c with Some nl => nl | None => LF end)).
+Proof. destruct c as [c [nl|]]; reflexivity. Qed.
+
+Lemma enl_root X tr : (X = [] \/ exists X' p, X = X' ++ [p] /\ is_node p = true /\ ensure_nl p = p) ->
+  ensure_nl_list (X ++ map cline_tree tr) = X ++ map cline_tree (term_abs tr).
+Proof.
+  intros HX. unfold term_abs. destruct (rev tr) as [|[c nl] r] eqn:Er.
+  - assert (tr = []) by (rewrite <- (rev_involutive tr), Er; reflexivity). subst tr. cbn [map]. rewrite app_nil_r.
+    destruct HX as [->|(X' & p & -> & Hp & Ep)]; [reflexivity|]. rewrite enl_snoc. destruct p; [discriminate|]. rewrite Ep. reflexivity.
+  - assert (Et : tr = rev r ++ [(c, nl)]) by (rewrite <- (rev_involutive tr), Er; reflexivity).
+    rewrite Et at 1. rewrite map_app. cbn [map]. rewrite app_assoc, enl_snoc. change (cline_tree (c, nl)) with (Node EMPTY_LINE (celems (c, nl))). cbv iota.
+    rewrite ensure_nl_node, enl_celems. cbn [fst snd].
+    destruct nl as [x|].
+    + rewrite Et, map_app, <- app_assoc. reflexivity.
+    + rewrite map_app, <- app_assoc. reflexivity.
+Qed.
+
+Lemma emitted_last ind iel mll esort ZL : Forall (fun z => para_res ind iel mll esort (fst z) (snd z)) ZL ->
+  let X := d_emit true (emitted ind iel mll esort ZL) in
+  X = [] \/ exists X' p, X = X' ++ [p] /\ is_node p = true /\ ensure_nl p = p.
+Proof.
+  intros H X. destruct ZL as [|z0 r0]; [left; reflexivity|]. right.
+  assert (Hne : z0 :: r0 <> []) by discriminate. destruct (exists_last Hne) as (ZL' & z & E). unfold X. clear X. rewrite E in *.
+  unfold emitted. rewrite !map_app. cbn [map]. rewrite d_emit_snoc.
+  rewrite Forall_forall in H. assert (Hz : para_res ind iel mll esort (fst z) (snd z)) by (apply H, in_or_app; right; left; reflexivity).
+  destruct z as [g [[lead f1] I']]. unfold para_res in Hz. cbn [fst snd] in Hz. destruct Hz as (_ & _ & _ & _ & _ & _ & _ & (cs & EP) & Een).
+  cbn [fst snd dgtree]. eexists _, (pp_out ind iel mll esort (ptree (snd g))). split; [rewrite !app_assoc; reflexivity|]. split; [rewrite EP; reflexivity|exact Een].
+Qed.
+
+(* ---- the layout is well-formed, canonical, separated by single empty lines, terminated ---- *)
+Lemma xwf_comment_mono c nl m : xwf_comment c nl true = true -> xwf_comment c nl m = true.
+Proof. unfold xwf_comment. intros H. apply andb_true_iff in H. destruct H as [A B]. rewrite A, (onl_ok_mono _ m B). reflexivity. Qed.
+Lemma xwf_field_mono f m : xwf_field f true = true -> xwf_field f m = true.
+Proof. unfold xwf_field. intros H. apply andb_true_iff in H. destruct H as [A B]. rewrite A, (onl_ok_mono _ m B). reflexivity. Qed.
+
+Lemma blanks_wf_coms cs m : forallb (comw true) cs = true -> blanks_wf (map xbcom cs) m = true.
+Proof.
+  induction cs as [|c r IH]; [reflexivity|]. cbn [forallb]. intros H. apply andb_true_iff in H. destruct H as [Hc Hr].
+  cbn [map blanks_wf xbcom]. rewrite (IH Hr), andb_true_r. apply xwf_comment_mono. exact Hc.
+Qed.
+Lemma xwf_doc_coms cs rest : forallb (comw true) cs = true -> xwf_doc rest = true -> xwf_doc (map xbcom cs ++ rest) = true.
+Proof. intros H1 H2. apply xwf_doc_blanks; [apply blanks_wf_coms, H1|exact H2]. Qed.
+
+Definition zgood (ind : indentation) (z : (list xcom * xpar) * xres) : Prop :=
+  let '(lead, f, its) := snd z in
+  forallb (comw true) (zpre z) = true /\ forallb (comw true) lead = true /\ xwf_field f true = true /\ xwf_items its true = true /\
+  xfield_canon (xn ind f) f = true /\ items_canon ind its = true.
+
+Lemma para_res_zgood ind iel mll esort z : para_res ind iel mll esort (fst z) (snd z) -> zgood ind z.
+Proof.
+  destruct z as [g [[lead f1] I']]. unfold para_res, zgood, zpre. cbn [fst snd]. intros (_ & A & B & C & D & E & F & _). repeat split; assumption.
+Qed.
+
+Lemma coms_items_true tr : forallb (comw true) tr = true -> forallb itw (map xcom_item tr) = true.
+Proof. intros H. rewrite forallb_forall in *. intros x Hx. apply in_map_iff in Hx. destruct Hx as (c & <- & Hc). exact (H c Hc). Qed.
+
+Lemma build_head_blank ZL tr : ZL <> [] -> exists r, build false ZL tr = XBlank LF :: r.
+Proof. destruct ZL as [|[g [[lead f] its]] r]; [congruence|]. intros _. cbn [build snd app]. eexists. reflexivity. Qed.
+
+Lemma build_wf ind ZL tr : Forall (zgood ind) ZL -> forallb (comw true) tr = true -> forall first, xwf_doc (build first ZL tr) = true.
+Proof.
+  intros H Htr. induction H as [|z r Hz Hr IH]; intros first.
+  - cbn [build]. destruct first; [|reflexivity]. rewrite <- (app_nil_r (map xbcom tr)). apply xwf_doc_coms; [exact Htr|reflexivity].
+  - destruct z as [g [[lead f] its]]. unfold zgood, zpre in Hz. cbn [fst snd] in Hz. destruct Hz as (A & B & C & D & _ & _).
+    cbn [build snd zpre fst].
+    assert (Hb : forall Y, xwf_doc Y = true -> xwf_doc ((if first then [] else [XBlank LF]) ++ Y) = true) by (intros Y HY; destruct first; [exact HY|cbn [app xwf_doc]; rewrite HY; reflexivity]).
+    apply Hb. apply xwf_doc_coms; [exact A|]. apply xwf_doc_coms; [exact B|].
+    destruct r as [|z2 r2].
+    + cbn [xwf_doc]. rewrite (xwf_field_mono f _ C). rewrite andb_true_r. cbn [andb]. rewrite andb_true_r.
+      apply xwf_items_mono. rewrite xwf_items_true, forallb_app, <- xwf_items_true, D. apply coms_items_true, Htr.
+    + destruct (build_head_blank (z2 :: r2) tr ltac:(discriminate)) as (rr & Eb). specialize (IH false). rewrite Eb in *.
+      cbn [xwf_doc] in *. rewrite (xwf_field_mono f _ C), (xwf_items_mono its true D). cbn [andb]. exact IH.
+Qed.
+
+Lemma canon_coms ind cs : xdoc_canon ind (map xbcom cs) = true.
+Proof. induction cs as [|c r IH]; [reflexivity|]. cbn [map xdoc_canon forallb xbcom]. exact IH. Qed.
+Lemma items_canon_coms ind cs : items_canon ind (map xcom_item cs) = true.
+Proof. induction cs as [|c r IH]; [reflexivity|]. cbn [map items_canon forallb xcom_item]. exact IH. Qed.
+
+Lemma xdoc_canon_app ind a b : xdoc_canon ind (a ++ b) = xdoc_canon ind a && xdoc_canon ind b.
+Proof. apply forallb_app. Qed.
+Lemma items_canon_app ind a b : items_canon ind (a ++ b) = items_canon ind a && items_canon ind b.
+Proof. apply forallb_app. Qed.
+Lemma xdoc_canon_cons ind f its r : xdoc_canon ind (XPara f its :: r) = xfield_canon (xn ind f) f && items_canon ind its && xdoc_canon ind r.
+Proof. reflexivity. Qed.
+
+Lemma build_canon ind ZL tr : Forall (zgood ind) ZL -> forall first, xdoc_canon ind (build first ZL tr) = true.
+Proof.
+  intros H. induction H as [|z r Hz Hr IH]; intros first.
+  - cbn [build]. destruct first; [apply canon_coms|reflexivity].
+  - destruct z as [g [[lead f] its]]. unfold zgood, zpre in Hz. cbn [fst snd] in Hz. destruct Hz as (_ & _ & _ & _ & E & F).
+    cbn [build snd]. rewrite !xdoc_canon_app, !canon_coms.
+    replace (xdoc_canon ind (if first then [] else [XBlank LF])) with true by (destruct first; reflexivity). cbn [andb].
+    destruct r as [|z2 r2]; rewrite xdoc_canon_cons, E; cbn [andb].
+    + rewrite items_canon_app, F, items_canon_coms. reflexivity.
+    + rewrite F. cbn [andb]. apply IH.
+Qed.
+
+Lemma sb_coms st cs rest : st = SepStart \/ st = SepAfterBlank ->
+  xsingle_blanks st (map xbcom cs ++ rest) = xsingle_blanks st rest.
+Proof. intros H. induction cs as [|c r IH]; [reflexivity|]. cbn [map app xbcom xsingle_blanks]. destruct H as [-> | ->]; exact IH. Qed.
+
+Lemma build_sb ind ZL tr : Forall (zgood ind) ZL -> forall first, (ZL <> [] \/ first = true) ->
+  xsingle_blanks (if first then SepStart else SepAfterPara) (build first ZL tr) = true.
+Proof.
+  intros H. induction H as [|z r Hz Hr IH]; intros first Hf.
+  - destruct Hf as [Hf| ->]; [congruence|]. cbn [build]. rewrite <- (app_nil_r (map xbcom tr)), sb_coms; [reflexivity|left; reflexivity].
+  - destruct z as [g [[lead f] its]]. cbn [build snd zpre fst].
+    assert (E : forall Y, xsingle_blanks (if first then SepStart else SepAfterPara) ((if first then [] else [XBlank LF]) ++ Y) =
+                xsingle_blanks (if first then SepStart else SepAfterBlank) Y) by (intros Y; destruct first; reflexivity).
+    assert (Hst : (if first then SepStart else SepAfterBlank) = SepStart \/ (if first then SepStart else SepAfterBlank) = SepAfterBlank) by (destruct first; [left|right]; reflexivity).
+    rewrite E, (sb_coms _ (fst g) _ Hst), (sb_coms _ lead _ Hst).
+    assert (E2 : forall Y, xsingle_blanks (if first then SepStart else SepAfterBlank) (XPara f Y :: nil) = true) by (intros Y; destruct first; reflexivity).
+    destruct r as [|z2 r2]; cbv iota; [exact (E2 _)|].
+    assert (Hne2 : z2 :: r2 <> []) by discriminate. specialize (IH false (or_introl Hne2)). destruct first; cbn [xsingle_blanks]; exact IH.
+Qed.
+
+Lemma comw_terminated c : comw true c = true -> match snd c with Some _ => true | None => false end = true.
+Proof. unfold comw, xwf_comment. intros H. apply andb_true_iff in H. destruct H as [_ H]. destruct (snd c); [reflexivity|discriminate]. Qed.
+Lemma itw_terminated it : itw it = true -> xitem_terminated it = true.
+Proof.
+  destruct it as [f|c nl]; cbn [itw xitem_terminated].
+  - unfold xwf_field. intros H. apply andb_true_iff in H. destruct H as [_ H]. destruct (x_nl f); [reflexivity|discriminate].
+  - unfold xwf_comment. intros H. apply andb_true_iff in H. destruct H as [_ H]. destruct nl; [reflexivity|discriminate].
+Qed.
+Lemma term_coms cs : forallb (comw true) cs = true -> xdoc_terminated (map xbcom cs) = true.
+Proof.
+  induction cs as [|c r IH]; [reflexivity|]. cbn [forallb]. intros H. apply andb_true_iff in H. destruct H as [Hc Hr].
+  cbn [map xdoc_terminated forallb xbcom]. rewrite (comw_terminated c Hc). exact (IH Hr).
+Qed.
+Lemma items_terminated its : forallb itw its = true -> forallb xitem_terminated its = true.
+Proof. intros H. rewrite forallb_forall in *. intros x Hx. apply itw_terminated, H, Hx. Qed.
+
+Lemma xdoc_terminated_app a b : xdoc_terminated (a ++ b) = xdoc_terminated a && xdoc_terminated b.
+Proof. apply forallb_app. Qed.
+Lemma xdoc_terminated_cons f its r : xdoc_terminated (XPara f its :: r) = xitem_terminated (XField f) && forallb xitem_terminated its && xdoc_terminated r.
+Proof. reflexivity. Qed.
+
+Lemma build_term ind ZL tr : Forall (zgood ind) ZL -> forallb (comw true) tr = true -> forall first, xdoc_terminated (build first ZL tr) = true.
+Proof.
+  intros H Htr. induction H as [|z r Hz Hr IH]; intros first.
+  - cbn [build]. destruct first; [apply term_coms, Htr|reflexivity].
+  - destruct z as [g [[lead f] its]]. unfold zgood, zpre in Hz. cbn [fst snd] in Hz. destruct Hz as (A & B & C & D & _ & _).
+    cbn [build snd]. unfold zpre. cbn [fst]. rewrite !xdoc_terminated_app, (term_coms _ A), (term_coms _ B).
+    replace (xdoc_terminated (if first then [] else [XBlank LF])) with true by (destruct first; reflexivity). cbn [andb].
+    rewrite xwf_items_true in D.
+    destruct r as [|z2 r2]; rewrite xdoc_terminated_cons, (itw_terminated (XField f) C); cbn [andb].
+    + rewrite forallb_app, (items_terminated its D), (items_terminated _ (coms_items_true tr Htr)). reflexivity.
+    + rewrite (items_terminated its D). cbn [andb]. apply IH.
+Qed.
+
+(* ================================================================ Deb822::wrap_and_sort on the layout of an error-free document *)
+Theorem xdoc_ws_reread ind iel mll psort esort d : ind_pos ind -> xwf_doc d = true ->
+  let R := d_out ind iel mll psort esort (map xblock_tree d) in
+  exists D, xwf_doc D = true /\ xrender D = text R /\ xcontent D = doc_items R /\
+    xdoc_canon ind D = true /\ xsingle_blanks SepStart D = true /\ xdoc_terminated D = true.
+Proof.
+  intros Hi Hwf R.
+  destruct (d_groups_abs d [] Hwf eq_refl) as (AG & tr & Eg & HG & Htr). cbn [map] in Eg.
+  unfold R, d_out. rewrite Eg. cbn [fst snd].
+  set (L := sort_opt (option_map on_snd psort) (map dgtree AG)).
+  destruct (in_map_list dgtree good_dgroup L) as (AL & EL & HAL).
+  { intros y Hy. apply sort_opt_In in Hy. apply in_map_iff in Hy. destruct Hy as (a & <- & Ha). exists a. split; [reflexivity|].
+    rewrite Forall_forall in HG. exact (HG a Ha). }
+  assert (HQ : Forall (fun g => exists t, para_res ind iel mll esort g t) AL).
+  { rewrite Forall_forall in *. intros g Hg. apply para_res_exists; [exact Hi|exact (HAL g Hg)]. }
+  destruct (forall_exists_list _ AL HQ) as (ZL & EZ & HZ).
+  rewrite EL, <- EZ. fold (emitted ind iel mll esort ZL).
+  rewrite ensure_nl_node, (enl_root _ tr (emitted_last ind iel mll esort ZL HZ)).
+  pose proof (term_abs_wf tr false Htr) as Wtr.
+  assert (HZg : Forall (zgood ind) ZL) by (rewrite Forall_forall in *; intros z Hz; apply (para_res_zgood ind iel mll esort z), HZ, Hz).
+  exists (build true ZL (term_abs tr)).
+  assert (Hd : dden (d_emit true (emitted ind iel mll esort ZL) ++ map cline_tree (term_abs tr)) (build true ZL (term_abs tr))).
+  { destruct ZL as [|z0 r0]; [cbn [emitted map d_emit app build]; apply dden_clines|]. apply dden_emit; [exact HZ|discriminate]. }
+  destruct Hd as [Ht Hc].
+  split; [apply (build_wf ind ZL _ HZg Wtr)|]. split; [unfold xrender; rewrite text_node; symmetry; exact Ht|]. split; [symmetry; exact Hc|].
+  split; [apply build_canon, HZg|]. split; [apply (build_sb ind ZL _ HZg true); right; reflexivity|apply (build_term ind ZL _ HZg Wtr)].
 Qed.
